@@ -16,14 +16,14 @@ from collections import Counter
 from vt import core, dsw, explore, seams
 
 PROP = 'C29'
-RULE = ('designs of strata S1, S1x, S2, S2s, S4, S6 (quick: stratified core + seed-rotated members); per design all draw schedules with <= D '
+RULE = ('designs of strata S1, S1d (Transition over a within-trial derived factor), S1x, S2, S2s, S4, S6 (quick: stratified core + seed-rotated members); per design all draw schedules with <= D '
         'non-default draws (D = 1 quick, 2 thorough; capped), horizon 4000 draws, timer fired at draw positions {none, 0, middle}; '
         'states = executions, transitions = draws; non-trivial = SMGen returned sequences (did not refuse).')
 ASSUMPTIONS = ['reference model vt/ref.py (set or single-sequence membership oracle)',
                'the timer callback runs in its own thread where an exception only prints a traceback: its only interaction with the search is '
                'when it fires; byte-code-level preemption inside CPython is not modelled']
 BUDGET_S = {'quick': 90, 'thorough': 600}
-STRATA = ['S1', 'S1n', 'S1p', 'S1x', 'S2', 'S2s', 'S4', 'S6']
+STRATA = ['S1', 'S1d', 'S1n', 'S1p', 'S1x', 'S2', 'S2s', 'S4', 'S6']
 QUICK_CAPS = {'S1': 320, 'S1p': 100, 'S1x': 60, 'S2': 200, 'S4': 60, 'S6': 30}
 DEV = {'quick': 1, 'thorough': 2}
 CAP = {'quick': 150, 'thorough': 3000}
